@@ -144,8 +144,17 @@ class KernExporter(object):
             else:
                 structural_elements = elements_starting[~note_mask]
             # Put structural elements first (start with tandem elements, then measure elements, then notes and rests)
+            # grace notes precede the notes they ornament
+            notes_starting = elements_starting[note_mask]
+            grace_mask = np.array(
+                [isinstance(el, spt.GraceNote) for el in notes_starting], dtype=bool
+            )
             elements_starting = np.hstack(
-                (structural_elements, elements_starting[note_mask])
+                (
+                    structural_elements,
+                    notes_starting[grace_mask],
+                    notes_starting[~grace_mask],
+                )
             )
             for el in elements_starting:
                 add_row = True
@@ -288,6 +297,11 @@ class KernExporter(object):
         col_idx = self.vocstaff_map_dict[f"{voice}-{staff}"]
         markings = self.markings_to_kern(el)
         kern_el = duration + pitch + markings
+        if isinstance(el, spt.GraceNote):
+            # a grace note is a token of its own before the note it ornaments
+            self.out_data[row_idx, col_idx] = kern_el
+            self.prev_note_time = None
+            return
         if self.prev_note_time == el.start.t:
             if self.prev_note_col_idx == col_idx:
                 # Chords in Kern
